@@ -250,6 +250,22 @@ def scc_scenarios(flavour, n, max_edges, simple=False):
         yield (flavour, 'scc'), {'flavour': flavour, 'nodes': nodes, 'steps': steps, 'meta': {'seq': seq, 'family': 'scc'}}
 
 
+def scc_history_scenarios(flavour, n, max_edges):
+    """scc(), then a change of reachability made through node handles or the container, then scc() again on the same
+    container: the second answer must describe the graph as it is then"""
+    for seq in canon_sequences(n, max_edges):
+        nodes = [[i, 100 + i] for i in range(n)]
+        pre = [['connect', u, v, {'s': f'e{j}'}] for j, (u, v) in enumerate(seq)]
+        head = pre + [['g_new']] + [['g_insert', i] for i in range(n)] + [['g_scc']]
+        used = used_nodes(seq)
+        ops = [['connect', a, b, {'s': 'enew'}] for a in range(n) for b in range(n) if a != b and max(a, b) <= used + 1]
+        ops += [['disconnect', u, v] for (u, v) in sorted(set(map(tuple, seq)))]
+        ops += [['isolate', a] for a in range(min(used + 1, n))]
+        for op in ops:
+            yield (flavour, 'scc-again'), {'flavour': flavour, 'nodes': nodes, 'steps': head + [op, ['dump', 'lite'], ['g_scc']],
+                                           'meta': {'seq': seq, 'family': 'scc-again', 'then': op[:3] if op[0] != 'connect' else op[:3]}}
+
+
 def true_sccs(adj):
     n = len(adj)
     reach = []
@@ -280,7 +296,8 @@ def evaluate_c11(prop, scen, obs, ctx):
     flat = [k for c in res for k in c]
     cs = [(sorted(flat) == list(range(n)), f'scc() = {res}: not every member appears exactly once', 'scc-partition')]
     got = {frozenset(c) for c in res}
-    cs.append((got == exp, f'scc() = {res}, strongly connected components are {sorted(sorted(c) for c in exp)} (edges {scen["meta"]["seq"]})', 'scc-components'))
+    then = f' then {scen["meta"]["then"]} and a second scc() on the same container' if scen['meta'].get('then') else ''
+    cs.append((got == exp, f'scc() = {res}, strongly connected components are {sorted(sorted(c) for c in exp)} (edges {scen["meta"]["seq"]}{then})', 'scc-components'))
     return cs
 
 
@@ -308,9 +325,11 @@ def run(prop, tier, seed):
             if tier == 'quick':
                 items += list(scc_scenarios(fl, 3, 4))
                 items += list(scc_scenarios(fl, 4, 4, simple=True))
+                items += list(scc_history_scenarios(fl, 3, 2))
             else:
                 items += list(scc_scenarios(fl, 3, 5))
                 items += list(scc_scenarios(fl, 4, 4))
+                items += list(scc_history_scenarios(fl, 3, 3))
                 from nodeops import simple_sequences
                 for seq in simple_sequences(5, 5):
                     nodes = [[i, 100 + i] for i in range(5)]
@@ -321,11 +340,12 @@ def run(prop, tier, seed):
             prop, tier, seed, items, evaluate_c11, sig_c11,
             bounds={'members': '3 (<=4 edges) and 4 (<=4 edges, no parallel edges)' if tier == 'quick' else '3 (<=5 edges), 4 (<=4 edges), 5 (exactly 5 edges, simple digraphs)', 'max_edges': 4 if tier == 'quick' else 5,
                     'free_choices': 'the order in which the hash map yields its members at every next() (subsumes insertion order)',
+                    'second_call': 'scc(); one connect / disconnect / isolate through node handles; scc() again on the same container (3 members, <=%d edges before)' % (2 if tier == 'quick' else 3),
                     'outside': 'larger graphs; neighbours that are not members'},
             assumptions=['AHashMap/AHashSet modelled as association lists with free iteration order', 'std models of engine A',
                          'oracle: mutual reachability on the out-lists read back through iter_out'],
             rule='work item = canonical connect sequence; executor paths = all iteration orders of the container; oracle = set of mutual-reachability classes',
-            expected_cells=[(fl, 'scc') for fl in DIRECTED], natrun=natrun_repeat)
+            expected_cells=[(fl, k) for fl in DIRECTED for k in ('scc', 'scc-again')], natrun=natrun_repeat)
     items = []
     k = 3 if tier == 'quick' else 4
     for fl in FLAVOURS:
